@@ -29,7 +29,41 @@ func concatKey(labels map[string]string) string {
 	return sb.String()
 }
 
+// c10Identical: records that are identical but for their timestamps carry equal label sets
+// whatever a parser stage makes of their keys, so they form exactly one series that counts them
+// all - on every repetition.
+func c10Identical(c MetricCase) (r evid.Result) {
+	recs := sortedRecs(c.Recs)
+	r.Class(true, "identical-records")
+	r.NonTrivial = c.Identical >= 2
+	for i := 0; i < 6; i++ {
+		got, _, v, _ := runMetric(recs, c.Caps, false, c.Text, c.Params)
+		r.Evals++
+		if v != nil {
+			v.Sig = "C10/" + v.Sig
+			r.Violation = v
+			return r
+		}
+		if len(got) != 1 {
+			r.Violation = evid.Viol("C10/identical-records-split", "%s over %d identical records %q: %d series %v, want one", c.Text, c.Identical, trunc(string(recs[0].Line)), len(got), got)
+			return r
+		}
+		for k, pts := range got {
+			for _, val := range pts {
+				if int(val+0.5) != c.Identical {
+					r.Violation = evid.Viol("C10/total-not-conserved", "%s over %d identical records: series {%s} = %v", c.Text, c.Identical, k, val)
+					return r
+				}
+			}
+		}
+	}
+	return r
+}
+
 func c10Check(c MetricCase) (r evid.Result) {
+	if c.Identical > 0 {
+		return c10Identical(c)
+	}
 	recs := sortedRecs(c.Recs)
 	ev := model.NewEvaluator(recs)
 	rep := c.Repeat
@@ -112,6 +146,34 @@ func c10Check(c MetricCase) (r evid.Result) {
 
 func c10Gen(t *rapid.T) MetricCase {
 	var c MetricCase
+	if rapid.IntRange(0, 9).Draw(t, "identical-records") == 0 {
+		// keys that differ only in characters a label name cannot hold, keys that repeat, keys that
+		// shadow the record's own labels
+		line := rapid.SampledFrom([]string{"req.id=1 req-id=2 req_id=3", "a.b=x a_b=y", "k-1=v k_1=w k.1=z", "id=7 id=8", "x=1", "app=shadow a/b=1 a-b=2",
+			`{"req.id":1,"req-id":2,"req_id":3}`, `{"a.b":"x","a_b":"y","a b":"z"}`, `{"n":{"m":1},"n.m":2,"n_m":3}`}).Draw(t, "identical-line")
+		stage := "logfmt"
+		if strings.HasPrefix(line, "{") {
+			stage = "json"
+		}
+		n := rapid.IntRange(1, 40).Draw(t, "identical-n")
+		for i := 0; i < n; i++ {
+			c.Recs = append(c.Recs, model.Rec{TS: datagen.BaseTS + int64(i)*datagen.Tick, Line: gen.BS(line), Labels: map[string]string{"app": "web"}})
+		}
+		grouping := rapid.SampledFrom([]string{"", "sum by (req_id, a_b, k_1, n_m, id) (%s)", "sum without (msg) (%s)", "max(%s)", "count by (app) (%s) * %d"}).Draw(t, "identical-agg")
+		q := "count_over_time({} | " + stage + " [60y])"
+		switch {
+		case strings.HasPrefix(grouping, "count"):
+			// one series in, so the count is 1: scaled back to n to share the oracle
+			q = fmt.Sprintf(grouping, q, n)
+		case grouping != "":
+			q = fmt.Sprintf(grouping, q)
+		}
+		at := datagen.BaseTS + int64(n)*datagen.Tick
+		c.Text, c.Identical = q, n
+		c.Params = model.Params{Start: at, End: at, Step: 0, Limit: -1}
+		c.M = gen.Metric{Kind: "literal"}
+		return c
+	}
 	d := datagen.GenMetricData(t, 24, rapid.IntRange(0, 3).Draw(t, "ambiguous") != 0, false, false)
 	funcs := []string{"count_over_time"}
 	grouped := rapid.IntRange(0, 3).Draw(t, "grouped-range") == 0
